@@ -275,3 +275,43 @@ func (sq *Queue) VerifSetUsage(pending, allocated *resources.Resource) {
 // VerifInitQueueSnapshots takes the queue snapshots (victim collection) of the preemptor now, as the first step of
 // TryPreemption would; a later TryPreemption works on these snapshots.
 func (p *Preemptor) VerifInitQueueSnapshots() { p.initQueueSnapshots() }
+
+// VerifTryQuotaPreemptionSyncStepped is VerifTryQuotaPreemptionSync with the three steps of tryPreemptionInternal run one
+// by one for every leaf queue that takes part: `between` is called after filterAllocations / sortAllocations with the
+// path of the leaf queue and its filtered, sorted allocations, and before preemptVictims marks the victims.
+func (sq *Queue) VerifTryQuotaPreemptionSyncStepped(between func(leaf string, filtered []*Allocation)) {
+	if sq.tryAcquirePreemption() {
+		func() {
+			defer sq.setQuotaPreemptionState(false)
+			step := func(qpc *QuotaPreemptionContext) {
+				qpc.filterAllocations()
+				qpc.sortAllocations()
+				between(qpc.queue.GetQueuePath(), append([]*Allocation{}, qpc.allocations...))
+				qpc.preemptVictims()
+			}
+			preemptor := NewQuotaPreemptor(sq)
+			preemptor.setPreemptableResources()
+			if sq.IsLeafQueue() {
+				step(preemptor)
+				return
+			}
+			if resources.IsZero(preemptor.preemptableResource) {
+				return
+			}
+			leafQueues := make(map[*Queue]*QuotaPreemptionContext)
+			getChildQueuesPreemptableResource(sq, preemptor.preemptableResource, leafQueues)
+			for _, leafContext := range leafQueues {
+				step(leafContext)
+			}
+		}()
+		return
+	}
+	if sq.getQuotaPreemptionRunning() {
+		return
+	}
+	if !sq.IsLeafQueue() {
+		for _, child := range sq.GetCopyOfChildren() {
+			child.VerifTryQuotaPreemptionSyncStepped(between)
+		}
+	}
+}
